@@ -5,7 +5,10 @@
    repaired source.
    Second finding (repaired by commit 6bb6da5 "fix: brentq must not divide by an underflowed denominator"):
    the inverse-quadratic step divided by dblk*dpre*(fblk-fpre) unguarded; for |f| around 1e-187 that product
-   underflows to 0 and Numba's Python error model raised ZeroDivisionError on a valid bracket. *)
+   underflows to 0 and Numba's Python error model raised ZeroDivisionError on a valid bracket.
+   Third finding (repaired by commit 2738fce "fix: nelder_mead shrink step must reorder vertex indices, not
+   positions"): the shrink step stored `f_val[sort_ind[1:]].argsort() + 1` (positions) in sort_ind[1:], so the
+   order array got duplicate entries and lost a vertex. *)
 From Coq Require Import ZArith List Bool PrimFloat.
 From QE Require Import Base.Num C17.Model.
 Import ListNotations.
@@ -161,3 +164,87 @@ Lemma brentq_zero_division_refuted :
   is_zero_div (brentq_old tiny_cubic false (-6) 9.375 0x1.a36e2eb1c432dp-14 rtol_d 100 true) = true /\
   is_conv_root (brentq tiny_cubic (-6) 9.375 0x1.a36e2eb1c432dp-14 rtol_d 100 true) (-6) 9.375 = true.
 Proof. vm_compute. repeat split. Qed.
+
+(* ------------------------------------------------------------------ nelder_mead, pinned shrink step *)
+Section OldNM.
+Context {T : Type} {NX : NumX T}.
+Variable f : list T -> T.
+Variable bounds : list (T * T).
+Variables (rho chi gam sig : T).
+Variables (nonzdelt zdelt : T).
+
+Definition shrink_order_old (tail_ : list nat) (perm : list nat) : list nat := map S perm.
+
+Definition nm_shrink_old (s : @nm T) (n b w : nat) (sig_n : T) : @nm T :=
+  let tail_ := tl (si s) in
+  let '(V, F) := fold_left (fun (VF : list (list T) * list (ext T)) i =>
+                    let '(V, F) := VF in
+                    let vb := vget V b in
+                    let vi := vadd vb (vscale sig (vsub (vget V i) vb)) in
+                    (upd V i vi, upd F i (neg_fun f bounds vi))) tail_ (vs s, fv s) in
+  let S_ := b :: shrink_order_old tail_ (argsort (map (fget F) tail_)) in
+  let vb := vget V b in
+  {| vs := V; fv := F; si := S_;
+     xbar := vadd (vadd vb (vscale sig (vsub (xbar s) vb))) (vdivs (vsub (vget V w) (vget V (nth n S_ O))) (nofnat n));
+     lv := nmul (lv s) sig_n; nit := (nit s + 1)%Z |}.
+
+Definition nm_step_old (s : @nm T) (n : nat) (sig_n : T) : @nm T :=
+  let b := nth 0 (si s) O in
+  let w := nth n (si s) O in
+  let xb := xbar s in
+  let xr := vadd xb (vscale rho (vsub xb (vget (vs s) w))) in
+  let fr := neg_fun f bounds xr in
+  let fb := fget (fv s) b in
+  let fw := fget (fv s) w in
+  if negb (ext_lt fr fb) && ext_lt fr (fget (fv s) (nth (n - 1) (si s) O)) then nm_replace f bounds s n w xr rho
+  else if ext_lt fr fb then
+    let xe := vadd xb (vscale chi (vsub xr xb)) in
+    if ext_lt (neg_fun f bounds xe) fr then nm_replace f bounds s n w xe (nmul rho chi) else nm_replace f bounds s n w xr rho
+  else
+    let temp := vscale gam (vsub xr xb) in
+    let '(xc, upd_) := if ext_lt fr fw then (vadd xb temp, nmul rho gam) else (vsub xb temp, gam) in
+    if ext_lt (neg_fun f bounds xc) (ext_min fr fw) then nm_replace f bounds s n w xc upd_
+    else nm_shrink_old s n b w sig_n.
+
+Fixpoint nm_loop_old (fuel : nat) (s : @nm T) (n : nat) (sig_n tol_f tol_x : T) (max_iter : Z) : option (@nm T * bool) :=
+  let '(stop, fail) := nm_done s n tol_f tol_x max_iter in
+  if stop then Some (s, fail)
+  else match fuel with
+       | O => None
+       | S k => nm_loop_old k (nm_step_old s n sig_n) n sig_n tol_f tol_x max_iter
+       end.
+
+Definition nelder_mead_old (x0 : list T) (tol_f tol_x : T) (max_iter : Z) : nm_outcome T :=
+  if existsb (fun lh => nltb (snd lh) (fst lh)) bounds then NMErr
+  else
+    let n := length x0 in
+    match nm_loop_old (S (Z.to_nat max_iter)) (nm_init f bounds nonzdelt zdelt x0) n (npow sig n) tol_f tol_x max_iter with
+    | None => NMFuel
+    | Some (s, fail) =>
+      let b := nth 0 (si s) O in
+      NMRes (vget (vs s) b) (fget (fv s) b) (negb fail) (nit s) (vs s)
+    end.
+End OldNM.
+
+(* witness: concave quadratic k - (x-c)'A(x-c), A = [[4,-1,0],[-1,0.5,0.125],[0,0.125,1.625]], c = (-1.25, 1.5, 1), k = 0,
+   start (-2.25,-1,2), ACTIVE bounds [-2.26,-2.15] x [-2,1.56] x [0,3.12], default tolerances 1e-10, max_iter 1000 *)
+Definition nmw_f (x : list float) : float :=
+  let d0 := (nth 0 x 0 - (-1.25))%float in let d1 := (nth 1 x 0 - 1.5)%float in let d2 := (nth 2 x 0 - 1)%float in
+  (0 - ((((((4 * d0) * d0 + ((-2) * d0) * d1) + (0 * d0) * d2) + (0.5 * d1) * d1) + (0.25 * d1) * d2) + (1.625 * d2) * d2))%float.
+Definition nmw_bounds : list (float * float) :=
+  [((-0x1.2147ae147ae14p+1)%float, (-0x1.1333333333333p+1)%float); ((-2)%float, 0x1.8f5c28f5c28f6p+0%float);
+   (0%float, 0x1.8f5c28f5c28f6p+1%float)].
+Definition nmw_x0 : list float := [(-2.25)%float; (-1)%float; 2%float].
+Definition nm_summary (o : nm_outcome float) : option (list float * float * bool * Z) :=
+  match o with NMRes x (Fin v) s n _ => Some (x, v, s, n) | _ => None end.
+
+(* the pinned code reports success at the START vertex (value -3.125) after 12 passes; with the order array kept a
+   permutation the run continues to a value above -1.625 (the constrained maximum is about -1.59) *)
+Lemma nelder_mead_shrink_order_refuted :
+  nm_summary (nelder_mead_old nmw_f nmw_bounds 1 2 0.5 0.5 0x1.999999999999ap-5 0x1.0624dd2f1a9fcp-12 nmw_x0
+                              0x1.b7cdfd9d7bdbbp-34 0x1.b7cdfd9d7bdbbp-34 1000)
+    = Some (nmw_x0, 3.125, true, 12%Z) /\
+  match nm_summary (nelder_mead nmw_f nmw_bounds 1 2 0.5 0.5 0x1.999999999999ap-5 0x1.0624dd2f1a9fcp-12 nmw_x0
+                                0x1.b7cdfd9d7bdbbp-34 0x1.b7cdfd9d7bdbbp-34 1000) with
+  | Some (_, v, true, _) => PrimFloat.ltb v 1.625 | _ => false end = true.
+Proof. vm_compute. split; reflexivity. Qed.
